@@ -2129,8 +2129,8 @@ def is_collect_closure(c):
     return b == ("mcall", ("mcall", ("mcall", ("path", [v], None), "iter", None, []), "cloned", None, []), "collect", None, [])
 
 
-MODULE_PROFILE = {"Registry": RegistryProfile}
-MODULE_REWRITE = {"Registry": rewrite_registry_fn}
+MODULE_PROFILE = {}
+MODULE_REWRITE = {}
 
 
 def uses_key_method(node):
@@ -2166,6 +2166,9 @@ def regenerate():
             problems.append(f"{rel}: " + (str(e) if isinstance(e, Untranslatable) else f"translator error {e!r}"))
             text = "-- translation failed: " + str(e).replace("\n", " ") + "\n"
         h2 = hdr.replace("import Cachelito.RustLite\n", "import Cachelito.RustLite\nimport Cachelito.Generated.PureUtils\nimport Cachelito.Generated.PureEntry\nimport Cachelito.Generated.PureStats\n") if mod in ("Global", "Async", "Thread") else hdr
+        if mod == "StatsRegistry":
+            write_if_changed(os.path.join(GEN_DIR, "PureStatsRegistry.lean"), hdr.replace("import Cachelito.RustLite\n", "import Cachelito.RustLite\nimport Cachelito.StatsReg\n") + "namespace StatsRegistry\n\n" + text + "\nend StatsRegistry\nend Cachelito.Generated\n")
+            continue
         if mod == "Registry":
             write_if_changed(os.path.join(GEN_DIR, "PureRegistry.lean"), hdr.replace("import Cachelito.RustLite\n", "import Cachelito.RustLite\nimport Cachelito.RegistrySt\n") + "namespace Registry\nopen Cachelito.RustLite (RegistrySt)\n\n" + text + "\nend Registry\nend Cachelito.Generated\n")
             continue
@@ -2210,6 +2213,8 @@ def lean_type(rust, pname, reg_fn=None):
     base = strip_ref(rust).replace(" ", "")
     if reg_fn is not None:
         # invalidation.rs: names, tags, events are Strings; a callback is the identifier the registering party gave it
+        if base == "CellRef":
+            return "StatsReg.Cell", "cell"
         if base == "InvalidationMetadata":
             return "Registry.Meta", "meta"
         if base == "F" and pname == "callback":
@@ -2277,6 +2282,8 @@ UTIL_FILES = [
      ["register", "register_callback", "register_invalidation_callback", "invalidate_caches", "invalidate_by_tag",
       "invalidate_by_event", "invalidate_by_dependency", "invalidate_cache", "get_caches_by_tag", "get_caches_by_event",
       "get_dependent_caches", "invalidate_with", "invalidate_all_with", "clear"]),
+    ("StatsRegistry", "cachelito-core/src/stats_registry.rs", "StatsReg.Reg",
+     {"self.table": "kv", "self.cells": "heap"}, []),
     ("Async", "cachelito-core/src/async_global_cache.rs", "RustLite.AsyncCache K V F",
      {"self.cache": "map", "self.order": "deque", "self.frequency_weight": "optf64", "self.stats": "stats"},
      ["find_min_frequency_key", "find_arc_eviction_key", "find_tlru_eviction_key", "is_already_key_inserted",
@@ -2380,6 +2387,98 @@ def callback_fn(rel, callee, fname, map_field):
     return fns[0]
 
 
+STATS_REGISTRY_FNS = ["register", "get", "get_ref", "list", "clear", "reset"]
+
+
+def stats_registry_fns():
+    """the six free functions of stats_registry.rs as methods of the registry state: `STATS_REGISTRY` -> `self.table`,
+    `&'static Lazy<CacheStats>` -> a cell reference"""
+    rel = "cachelito-core/src/stats_registry.rs"
+    toks = production_tokens(rel)
+    # the static must be the table of references the model assumes
+    txt = " ".join(t[1] for t in toks)
+    if "static STATS_REGISTRY : Lazy < RwLock < HashMap < String , & 'static Lazy < CacheStats > > > >" not in txt:
+        raise Untranslatable(f"{rel}: `STATS_REGISTRY` is no longer `Lazy<RwLock<HashMap<String, &'static Lazy<CacheStats>>>>`")
+    out = []
+    i = 0
+    n_fn = 0
+    while i < len(toks):
+        t = toks[i]
+        if t[0] == "id" and t[1] == "fn" and toks[i + 2][1] == "(":
+            out += [t, toks[i + 1], toks[i + 2], ("p", "&", t[2]), ("id", "self", t[2])]
+            if toks[i + 3][1] != ")":
+                out.append(("p", ",", t[2]))
+            i += 3
+            n_fn += 1
+            continue
+        if t[1] == "&" and [x[1] for x in toks[i + 1:i + 6]] == ["'static", "Lazy", "<", "CacheStats", ">"]:
+            out.append(("id", "CellRef", t[2])); i += 6; continue
+        if t[1] == "&" and [x[1] for x in toks[i + 1:i + 3]] == ["'static", "CacheStats"]:
+            out.append(("id", "CellRef", t[2])); i += 3; continue
+        if t[0] == "id" and t[1] == "STATS_REGISTRY":
+            out += [("id", "self", t[2]), ("p", ".", t[2]), ("id", "table", t[2])]; i += 1; continue
+        out.append(t)
+        i += 1
+    # drop the static item itself: everything before the first `pub fn`
+    first = next(k for k in range(len(out)) if out[k][1] == "pub" and out[k + 1][1] == "fn")
+    fns = Parser(out[first:] + [("eof", "", 0)], rel).parse_file()
+    return [(h, f) for (h, f) in fns if f["name"] in STATS_REGISTRY_FNS]
+
+
+def rewrite_stats_registry_fn(name, body):
+    """`stats.reset()` on a cell reference -> `self.cells.cell_reset(stats)`; `(**stats).clone()` -> `self.cells.cell_read(stats)`"""
+    def strip(n):
+        d = 0
+        while isinstance(n, tuple) and n and n[0] in ("paren", "deref", "ref"):
+            if n[0] == "deref":
+                d += 1
+            n = n[1]
+        return n, d
+
+    def rw(n):
+        if isinstance(n, list):
+            return [rw(x) for x in n]
+        if not isinstance(n, tuple):
+            return n
+        if n and n[0] == "mcall" and n[2] == "reset" and not n[4] and n[1] == ("path", ["stats"], None):
+            return ("mcall", ("field", ("path", ["self"], None), "cells"), "cell_reset", None, [n[1]])
+        if n and n[0] == "mcall" and n[2] == "clone" and not n[4]:
+            base, d = strip(n[1])
+            if base == ("path", ["stats"], None) and d >= 1:
+                return ("mcall", ("field", ("path", ["self"], None), "cells"), "cell_read", None, [base])
+        return tuple(rw(x) for x in n)
+    body = rw(body)
+    # a value-producing branch with effects as the function's value: bind it first, so that the mutation it performs is threaded
+    if body[2] is not None and body[2][0] in ("if", "iflet", "match"):
+        body = ("block", list(body[1]) + [("let", ("pid", "result__"), None, body[2])], ("path", ["result__"], None))
+    return body
+
+
+class StatsRegistryProfile(RegistryProfile):
+    def kind_of(self, e):
+        k = super().kind_of(e)
+        if k is None and strip_guard(e) == ("path", ["registry"], None):
+            return "kv"             # `let registry = STATS_REGISTRY.read();`
+        return k
+
+    def mut_method(self, name, recv=None):
+        if name == "cell_reset":
+            return ("StatsReg.heapReset", False)
+        return super().mut_method(name, recv)
+
+    def method(self, recv, name, generics, args, em, env):
+        kind = self.kind_of(recv)
+        if name == "cell_read" and len(args) == 1:
+            return f"({em.expr(recv, env)} {em.expr(args[0], env)})"
+        if name == "keys" and not args and kind == "kv":
+            return f"(List.map Prod.fst {em.expr(recv, env)})"
+        if name == "map" and len(args) == 1:
+            return f"(Option.map {em.expr(args[0], env)} {em.expr(recv, env)})"
+        if name in ("cloned", "collect") and not args:
+            return em.expr(recv, env)
+        return super().method(recv, name, generics, args, em, env)
+
+
 def collect_callbacks():
     """fills EXTRA_FNS; returns problems"""
     EXTRA_FNS.clear()
@@ -2390,6 +2489,13 @@ def collect_callbacks():
                 EXTRA_FNS.setdefault(module, []).append(callback_fn(rel, callee, fname, map_field))
             except Exception as e:
                 problems.append(f"{module}.{fname}: " + (str(e) if isinstance(e, Untranslatable) else f"translator error {e!r}"))
+    try:
+        EXTRA_FNS["StatsRegistry"] = stats_registry_fns()
+        missing = [n for n in STATS_REGISTRY_FNS if n not in [f["name"] for (_, f) in EXTRA_FNS["StatsRegistry"]]]
+        if missing:
+            problems.append("StatsRegistry: function(s) missing from stats_registry.rs: " + ", ".join(missing))
+    except Exception as e:
+        problems.append("StatsRegistry: " + (str(e) if isinstance(e, Untranslatable) else f"translator error {e!r}"))
     return problems
 
 
@@ -2728,7 +2834,7 @@ def translate_utils(module, skip=()):
             continue
         wanted = [w for w in wanted if w not in skip]
         path = os.path.join(REPO, rel)
-        fns = parse_source(path) + EXTRA_FNS.get(module, [])
+        fns = ([] if module == "StatsRegistry" else parse_source(path)) + EXTRA_FNS.get(module, [])
         wanted = wanted + [f["name"] for (_, f) in EXTRA_FNS.get(module, []) if f["name"] not in skip]
         byname = {}
         for (hdr, f) in fns:
@@ -2757,7 +2863,7 @@ def translate_utils(module, skip=()):
                         sty = self_ty.replace(" K V F", " K (Except E T) F")
                     sig.append(f"(self : {sty})")
                     continue
-                lt, kind = lean_type(pt, pn, name if module == "Registry" else None)
+                lt, kind = lean_type(pt, pn, name if module in ("Registry", "StatsRegistry") else None)
                 kinds[pn] = kind
                 sig.append(f"({ident(pn)} : {lt})")
             prof = MODULE_PROFILE.get(module, PureProfile)(kinds, table)
@@ -2808,7 +2914,7 @@ def translate_utils(module, skip=()):
             sig, _, _, _, muts = bodies[name]
             kinds = dict(self_kinds)
             for (pn, pt) in f["params"]:
-                kinds[pn] = "self" if pn == "self" else lean_type(pt, pn, name if module == "Registry" else None)[1]
+                kinds[pn] = "self" if pn == "self" else lean_type(pt, pn, name if module in ("Registry", "StatsRegistry") else None)[1]
             prof = MODULE_PROFILE.get(module, PureProfile)(kinds, table)
             prof.fn_name = name
             em = Emitter(prof, f"{rel}:{f['line']} ({name})")
@@ -3442,6 +3548,10 @@ def replace_body_call(node):
             return b[2]
         return b
     return tuple(replace_body_call(x) for x in node)
+
+
+MODULE_PROFILE.update({"Registry": RegistryProfile, "StatsRegistry": StatsRegistryProfile})
+MODULE_REWRITE.update({"Registry": rewrite_registry_fn, "StatsRegistry": rewrite_stats_registry_fn})
 
 
 if __name__ == "__main__":
